@@ -1,10 +1,78 @@
-(* Props/C12.v — flat and nested layouts describe the same models.  Proofs in Proofs/LayoutProps.v (in progress:
-   until they are merged this file carries the executable non-vacuity examples only; the layout functions are tied
-   to the code by X-layout on both layouts of every explored registry). *)
-From Coq Require Import List Bool Arith NArith.
+(* Props/C12.v — flat and nested layouts describe the same models.  Statements only; proofs in Proofs/LayoutProps.v.
+   The layout functions read the pointer table (stale pointers included), as the implementation does: tree_table is
+   the tree shape of that table.  Live references always have a table entry (Props/C05: closed graph); the converse
+   fails for a pointer dropped by a structural-equality shortcut in merge_field_sets (DESIGN 6, C12). *)
+From Coq Require Import List Bool Arith NArith Permutation.
 From J2M.Model Require Import Base Registry Emit Layout.
-Import ListNotations.
+From J2M.Proofs Require Import LayoutProps.
 
+Theorem C12_flat_perm :
+  forall (g : graph) (l : list node),
+       compose_flat g = Some l -> Permutation (flat_map flatten l) (map m_idx (ms g)) /\ Forall leaf_node l.
+Proof. exact LayoutProps.flat_perm. Qed.
+
+Theorem C12_flat_exactly_once :
+  forall (g : graph) (l : list node),
+       NoDup (map m_idx (ms g)) ->
+       compose_flat g = Some l ->
+       NoDup (flat_map flatten l) /\ (forall m : N, In m (flat_map flatten l) <-> In m (map m_idx (ms g))).
+Proof. exact LayoutProps.flat_exactly_once. Qed.
+
+Theorem C12_flat_none_iff :
+  forall g : graph,
+       compose_flat g = None <-> (exists m : N, In m (map m_idx (ms g)) /\ ptrs_to g m = nil).
+Proof. exact LayoutProps.flat_none_iff. Qed.
+
+Theorem C12_flat_root_first :
+  forall (g : graph) (l : list node) (r : N),
+       compose_flat g = Some l ->
+       In r (map m_idx (ms g)) ->
+       is_root g r ->
+       (forall m : N, In m (map m_idx (ms g)) -> is_root g m -> m = r) ->
+       exists rest : list node, l = Node r nil :: rest.
+Proof. exact LayoutProps.flat_root_first. Qed.
+
+Theorem C12_tree_flat_root_first :
+  forall (g : graph) (r : N),
+       tree_table g r -> exists rest : list node, compose_flat g = Some (Node r nil :: rest).
+Proof. exact LayoutProps.tree_flat_root_first. Qed.
+
+Theorem C12_nested_perm_tree :
+  forall (g : graph) (r : N),
+       tree_table g r ->
+       exists t : node, compose_nested g = Some (t :: nil, nil) /\ Permutation (flatten t) (map m_idx (ms g)).
+Proof. exact LayoutProps.nested_perm_tree. Qed.
+
+Theorem C12_nested_placement :
+  forall (g : graph) (r : N) (t : node),
+       tree_table g r ->
+       compose_nested g = Some (t :: nil, nil) ->
+       forall p c : N, child_of t p c <-> In c (map m_idx (ms g)) /\ parents_of g c = p :: nil.
+Proof. exact LayoutProps.nested_placement. Qed.
+
+Theorem C12_nested_children_order :
+  forall (g : graph) (r : N) (t : node),
+       tree_table g r ->
+       compose_nested g = Some (t :: nil, nil) ->
+       forall (p : N) (l : list node),
+       subtree t (Node p l) -> map label l = filter (is_child g p) (map m_idx (ms g)).
+Proof. exact LayoutProps.nested_children_order. Qed.
+
+Theorem C12_nested_child_referenced :
+  forall (g : graph) (r : N) (t : node),
+       tree_table g r ->
+       compose_nested g = Some (t :: nil, nil) ->
+       forall p c : N, child_of t p c -> exists q : ptr, In q (ps g) /\ p_tgt q = c /\ p_par q = Some p.
+Proof. exact LayoutProps.nested_child_referenced. Qed.
+
+Theorem C12_same_models :
+  forall (g : graph) (r : N) (l : list node) (t : node),
+       tree_table g r ->
+       compose_flat g = Some l ->
+       compose_nested g = Some (t :: nil, nil) -> Permutation (flat_map flatten l) (flatten t).
+Proof. exact LayoutProps.same_models. Qed.
+
+Import ListNotations.
 (* a root (registered last, as merged roots are) with children 1, 2 and a grandchild 3 under 1 *)
 Definition ex_graph : graph :=
   {| ms := map (fun i => {| m_idx := i; m_fields := []; m_name := None; m_gen := None |}) [1; 2; 3; 0]%N;
